@@ -1275,6 +1275,15 @@ inline void run_step(JW& j, const Step& st, std::shared_ptr<Document>& doc_out, 
         j.e();
     }
     run_actions(j, st, *doc, d, workdir, idx);
+    if (wants("inv_after")) {
+        // the same predicate once more after the actions (queries typed against the document must leave it as it was)
+        bool clean = has_ret && !doc->has_errors() && (builder == "document" || builder == "builder-only") &&
+                     (entry.rfind("xml", 0) == 0 || entry.rfind("xta", 0) == 0) && ret == (entry.rfind("xta", 0) == 0 && !pb ? 1 : 0);
+        j.k("inv_after").a();
+        for (auto& s : d.invariants(clean))
+            j.str(s);
+        j.e();
+    }
     if (wants("symtab")) {
         // every symbol the dump has named so far (frames of the document and binders met in expression trees) with its type
         j.k("symtab").o();
